@@ -75,4 +75,7 @@ PROPS = {
         "trusted_base": TB_COMMON + ["messages are identified by small integers (injective map to the strings the harness prints); fmt.Sprintf and log.Print trusted; "
                                      "the captured line must equal the message byte for byte (observation code 2 otherwise)"],
     },
+    "C07": det("corr.C07", "DET07", "props/C07.v", "fixed threshold, FFC-free streams with resets; spec S07 (history-based verdict) on the implementation's verdicts"),
+    "C08": det("corr.C08", "DET08", "props/C08.v", "paired streams differing only in border pixels (fixed and dynamic threshold) or only in pixels at/below temp-thresh (fixed); both streams run on real detectors; spec: equal verdicts, thresholds, interior background"),
+    "C09": det("corr.C09", "DET09", "props/C09.v", "streams with FFC events at every offset/parity, resets, fixed and dynamic threshold; paired same-shape streams agreeing from the first affected frame of an FFC period; spec S09_supp + equal verdicts from the pairing point"),
 }
